@@ -554,6 +554,9 @@ func (g *G) validation(a *m.Attr, depth int) *m.Validation {
 		default:
 			lo := rapid.IntRange(0, 5).Draw(t, "minlen")
 			hi := lo + rapid.IntRange(0, 6).Draw(t, "lenspan")
+			if hi == 0 {
+				hi = 1 // a string that can only be empty cannot travel in every location
+			}
 			switch rapid.IntRange(0, 2).Draw(t, "lenkind") {
 			case 0:
 				v.MinLen = ip(lo)
